@@ -420,6 +420,9 @@ fn rowmat_run<B: RF, const N: usize>(cols: Vec<Vec<B>>, nrows: usize, blowup: us
 }
 
 fn rowmat_case<B: RF>(r: &mut Rng, o: &mut Out, nb: usize, ncols: usize, nrows: usize, blowup: usize) {
+    rowmat_case_op::<B>("rowmat", r, o, nb, ncols, nrows, blowup)
+}
+fn rowmat_case_op<B: RF>(op: &'static str, r: &mut Rng, o: &mut Out, nb: usize, ncols: usize, nrows: usize, blowup: usize) {
     let p = B::P;
     let offs = offsets::<B>(r);
     let off = offs[(ncols + nb) % 4];
@@ -432,7 +435,7 @@ fn rowmat_case<B: RF>(r: &mut Rng, o: &mut Out, nb: usize, ncols: usize, nrows: 
         4 => rowmat_run::<B, 4>(ecols, nrows, blowup, B::fu(off)),
         _ => rowmat_run::<B, 8>(ecols, nrows, blowup, B::fu(off)),
     }));
-    o.line("rowmat", format!("{} {} {:x} {} {}", B::NAME, nb, off, blowup, hcols_u(&cols)),
+    o.line(op, format!("{} {} {:x} {} {}", B::NAME, nb, off, blowup, hcols_u(&cols)),
         match res { Ok((nr, nc, d)) => format!("{} {} {}", nr, nc, hv(&d)), Err(_) => "panic".into() });
 }
 
@@ -493,17 +496,29 @@ fn split_field<B: RF>(r: &mut Rng, o: &mut Out, sizes: &[u32], full: bool) {
         let v = rand_vec(r, p, n);
         o.line("split_interp", format!("{} {}", B::NAME, hu(&v)), do_interpt::<B>(&v, &itw));
     }
-    if full {
-        // coset evaluation through concurrent::evaluate_poly_with_offset (per-chunk split_radix_fft), serial model
+    {
+        // concurrent::evaluate_poly_with_offset (per-chunk clone_and_shift + split_radix_fft, permute) and
+        // concurrent::interpolate_poly_with_offset (split_radix_fft, permute, batched scaling)
+        let offs = offsets::<B>(r);
+        let off = offs[1];
         let v = rand_vec(r, p, 1024);
-        let off = B::GENERATOR.tu();
-        o.line("eval_off", format!("{} std {:x} 2 {}", B::NAME, off, hu(&v)), do_eval_off::<B>(&v, &tw_std::<B>(1024), off, 2));
+        o.line("split_eval_off", format!("{} std {:x} 2 {}", B::NAME, off, hu(&v)), do_eval_off::<B>(&v, &tw_std::<B>(1024), off, 2));
+        if full {
+            let v = rand_vec(r, p, 2048);
+            o.line("split_eval_off", format!("{} std {:x} 1 {}", B::NAME, offs[2], hu(&v)), do_eval_off::<B>(&v, &tw_std::<B>(2048), offs[2], 1));
+        }
+        for &k in sizes {
+            let n = 1usize << k;
+            let v = rand_vec(r, p, n);
+            let off = offs[(k as usize) % 3 + 1];
+            o.line("split_interp_off", format!("{} std {:x} {}", B::NAME, off, hu(&v)), do_interp_off::<B>(&v, &itw_std::<B>(n), off));
+        }
     }
     // the duplicate of split_radix_fft in prover/src/matrix/segments.rs: domain 1024, row FFTs of size 16 (stretch 1)
     // and 32 (stretch 2), full and partial last segment
-    rowmat_case::<B>(r, o, 8, 3, 16, 64);
-    rowmat_case::<B>(r, o, 8, 9, 32, 32);
-    if full { rowmat_case::<B>(r, o, 4, 5, 8, 128); }
+    rowmat_case_op::<B>("split_rowmat", r, o, 8, 3, 16, 64);
+    rowmat_case_op::<B>("split_rowmat", r, o, 8, 9, 32, 32);
+    if full { rowmat_case_op::<B>("split_rowmat", r, o, 4, 5, 8, 128); }
 }
 
 fn split(seed: u64, maxlog: u32) {
@@ -515,6 +530,10 @@ fn split(seed: u64, maxlog: u32) {
     split_field::<f64::BaseElement>(&mut r, &mut o, &sizes, true);
     split_field::<f62::BaseElement>(&mut r, &mut o, &sizes[..1], false);
     split_field::<f128::BaseElement>(&mut r, &mut o, &sizes[..1], false);
+    if std::env::var("C09_TINY").is_ok() {
+        // observation (not part of the property's quantifier: blowup 512): trace length 2 with a domain of 1024
+        rowmat_case_op::<f64::BaseElement>("tiny_rowmat", &mut r, &mut o, 8, 3, 2, 512);
+    }
     let _ = o.w.flush();
 }
 
